@@ -4,7 +4,7 @@ MODEL = "lean/Sentinel/World.lean (isoCheck, World.build/exit)"
 RULE = ("1-3 isolation rules (threshold 1..5) on one or two resources, batches 1..4 (incl. batch > threshold), build/exit interleavings with up to 6 open "
         "entries, exits immediately followed by a request that must fit again. Non-trivial: at least one isolation rejection and a later admission after an exit; "
         "distinct = distinct op text. Hotspot-concurrency half of the property: see DESIGN (built on the hotspot model).")
-NONTRIVIAL_TAGS = ["other-block"]
+NONTRIVIAL_TAGS = ["other-block", "hotspot-block"]
 ASSUMPTIONS = ["entries are requested one at a time (sequential)", "batch + in-flight stays far below 2^32"]
 TRUSTED = []
 KEEP_PREFIX = 1
@@ -38,6 +38,53 @@ def gen_case(rng):
     return ops
 
 
+VALS = ["a", "b", "c", "d"]
+
+
+def hs_case(rng):
+    """hotspot concurrency: per-value caps, overrides, positional / keyed / negative index / missing parameters"""
+    ops = ["clock"]
+    nrules = rng.choice([1, 1, 1, 2])
+    rules = []
+    shapes = []
+    for j in range(nrules):
+        keyed = rng.random() < 0.3
+        idx = rng.choice([0, 1, -1, -2])
+        thr = rng.randint(1, 4)
+        spec = []
+        if rng.random() < 0.5:
+            for v in rng.sample(VALS, rng.randint(1, 2)):
+                spec.append((v, rng.randint(1, 5)))
+        cap = 0   # eviction + exit makes the per-value counter wrap (u64 fetch_sub on a re-created entry): outside 'up to capacity distinct values'; tracked under C12
+        rules.append("%s;c;r;%d;%s;%d;0;0;0;%d;%s" % ("hg"[j], 0 if keyed else idx, "k" if keyed else "", thr, cap, "|".join("%s=%d" % kv for kv in spec)))
+        shapes.append((keyed, idx))
+    ops.append("hs.load res=r rules=" + ",".join(rules))
+    eid = 0
+    open_ = []
+    for _ in range(rng.randint(6, 45)):
+        x = rng.random()
+        if (x < 0.62 and len(open_) < 8) or not open_:
+            eid += 1
+            v = rng.choice(VALS[:rng.randint(1, 4)])
+            o = rng.choice(VALS)
+            extra = []
+            r = rng.random()
+            if r < 0.08:
+                pass                          # no parameters at all
+            else:
+                extra.append("args=%s" % ",".join(rng.choice([[v], [v, o], [o, v], [o, o, v], []])))
+                if any(k for k, _ in shapes) and rng.random() < 0.85:
+                    extra.append("atts=%s:%s" % (rng.choice(["k", "k", "k", "z"]), rng.choice([v, o])))
+            ops.append("build e=%d res=r batch=%d dir=out %s" % (eid, rng.choice([1, 1, 1, 2]), " ".join(extra)))
+            open_.append(eid)
+        else:
+            e = open_.pop(rng.randrange(len(open_)))
+            ops.append("exit e=%d" % e)
+        if rng.random() < 0.15:
+            ops.append("adv ms=%d" % rng.choice([1, 500, 1500]))
+    return ops
+
+
 def gen(rng, tier):
-    n = 400 if tier == "quick" else 20000
-    return [gen_case(rng) for _ in range(n)]
+    n = 300 if tier == "quick" else 15000
+    return [gen_case(rng) for _ in range(n)] + [hs_case(rng) for _ in range(n)]
